@@ -9,7 +9,6 @@ package main
 
 import (
 	"database/sql"
-	"sync/atomic"
 	"encoding/json"
 	"flag"
 	"fmt"
@@ -19,8 +18,10 @@ import (
 	"os"
 	"os/exec"
 	"path/filepath"
+	"runtime"
 	"strings"
 	"sync"
+	"sync/atomic"
 	"time"
 
 	"github.com/prometheus/client_golang/prometheus"
@@ -65,6 +66,9 @@ type Round struct {
 	// Saturated: see drawRound; every third request is one its coroutine answers within the tick that admits it (a
 	// callback on its own root), so that ticks occur after which no coroutine is in flight while the queue still holds requests
 	Saturated bool `json:"saturated,omitempty"`
+	// Storm: many clients submit cheap reads in a tight loop while shutdown is requested from a goroutine of its own at an
+	// arbitrary moment: requests caught inside EnqueueSQE at that instant are answered exactly once like all others
+	Storm bool `json:"storm,omitempty"`
 }
 
 type okPlugin struct {
@@ -107,6 +111,13 @@ func drawRound(r *rand.Rand) Round {
 		rd.Clients, rd.PerClient = small(2, 4), small(6, 12)
 		rd.ShutdownAt = rd.Clients * rd.PerClient
 		rd.Saturated = true
+	} else if r.Intn(6) == 0 {
+		rd.Storm = true
+		rd.ApiSize, rd.CqSize, rd.Pool, rd.SubBatch, rd.CplBatch, rd.StoreSize, rd.StoreBatch = 100, 100, 100, 100, 100, 100, 100
+		rd.Clients, rd.PerClient = 12, 1500
+		rd.ApiSize = rd.Clients * rd.PerClient // room for every request: the submission always succeeds, whatever the moment
+		rd.ShutdownAt = rd.Clients*rd.PerClient/4 + r.Intn(rd.Clients*rd.PerClient/2)
+		rd.Refuse = 0
 	} else if r.Intn(3) == 0 {
 		rd.Idle = true
 		rd.ApiSize, rd.CqSize, rd.Pool, rd.SubBatch, rd.CplBatch = 10, 10, 10, 10, 10
@@ -190,6 +201,21 @@ func runRound(rd Round, dir string) M {
 			close(shutdownCh)
 		})
 	}
+	if rd.Storm {
+		kinds = []t_api.Kind{t_api.ReadPromise}
+		go func() {
+			for {
+				mu.Lock()
+				n := submitted
+				mu.Unlock()
+				if n >= rd.ShutdownAt {
+					doShutdown()
+					return
+				}
+				runtime.Gosched()
+			}
+		}()
+	}
 	var wg sync.WaitGroup
 	for c := 0; c < rd.Clients; c++ {
 		wg.Add(1)
@@ -233,10 +259,10 @@ func runRound(rd Round, dir string) M {
 					}
 					mu.Unlock()
 				}})
-				if rd.ShutdownAt >= 0 && n >= rd.ShutdownAt {
+				if rd.ShutdownAt >= 0 && n >= rd.ShutdownAt && !rd.Storm {
 					doShutdown()
 				}
-				if g.R.Intn(3) == 0 {
+				if !rd.Storm && g.R.Intn(3) == 0 {
 					time.Sleep(time.Duration(g.R.Intn(300)) * time.Microsecond)
 				}
 			}
@@ -407,6 +433,9 @@ func main() {
 			sample = rd
 		}
 		res := runChild(rd)
+		if rd.Storm {
+			totals["storm_rounds"]++
+		}
 		if st, ok := res["status"].(map[string]any); ok {
 			for k, v := range st {
 				totals["status:"+k] += int(v.(float64))
